@@ -2206,7 +2206,9 @@ fn generate_constraints_stmt(
             {
                 if let Declaration::Var(node) = decl {
                     if let AstNode::Pat(pat) = node
-                        && !ctx.pat_is_mutable[&pat.id]
+                        // bindings that are not introduced by let/var (e.g. a for-loop
+                        // variable) are immutable too
+                        && !ctx.pat_is_mutable.get(&pat.id).copied().unwrap_or(false)
                     {
                         ctx.errors.push(Error::GenericWithNode {
                             msg:
